@@ -13,7 +13,7 @@ Theorem C37_accept_iff : forall ts r now,
     r_parse_ok r = true
     /\ normalise (r_certs r) = Some [a; c]            (* two certificates forming a valid chain (CA first is swapped) *)
     /\ r_version r = 1 /\ r_nsigners r = 1
-    /\ r_sid r = c_id a
+    /\ (r_sid r <> 0 /\ r_sid r = c_id a)           (* the SignerInfo names an envelope certificate: the AS certificate *)
     /\ client_chain_ok ts [a; c] now = true
     /\ r_type_data r = true /\ r_digest_ok r = true /\ (r_sig_key r = c_key a /\ r_sig_key r <> 0)
     /\ r_csr_parse r = true /\ ia_eqb (r_csr_ia r) (c_subject_ia a) = true
@@ -40,9 +40,9 @@ Theorem C37_accept_only_if_signer_is_as : forall ts r now,
   renewal_verify ts r now = true ->
   exists a c, In a (r_certs r) /\ In c (r_certs r) /\ length (r_certs r) = 2%nat
     /\ validate_cert a = Some TAS /\ validate_cert c = Some TCA /\ validate_chain [a; c] = true
-    /\ r_sid r = c_id a.
+    /\ r_sid r = c_id a /\ r_sid r <> 0.
 Proof.
-  intros ts r now H. apply C37_accept_iff in H as (a & c & _ & Nm & _ & _ & Sid & _).
+  intros ts r now H. apply C37_accept_iff in H as (a & c & _ & Nm & _ & _ & (Snz & Sid) & _).
   destruct (normalise_members _ _ _ Nm) as [Ia Ic].
   destruct (normalise_some _ _ Nm) as (V & x & y & E & _).
   exists a, c. repeat split; auto.
@@ -155,3 +155,11 @@ Example C37_example :
   /\ (match create_chain Ex.ca 2 true 0 250 Ex.q with Some a => (c_key a, c_na a) | None => (0, 0%Z) end) = (9, 250%Z)
   /\ create_chain Ex.ca 2 true 100 250 Ex.q = None.
 Proof. vm_compute. repeat split; reflexivity. Qed.
+
+(** The "no certificate named" sentinel 0 of [r_sid] is never accepted, even
+    for an (impossible in the runner) AS certificate with handle 0. *)
+Example C37_sid_zero_rejected :
+  let asc0 := mkc 0 3 2 3 2 3 true true 3 2 false false false true [1;2;8] [] false false 0 false (IAOk 1 273) Ex.ia110 (-200) 200 in
+  renewal_verify [Ex.trc1] (mkreq true [Ex.ca; asc0] 1 1 0 true true 3 true (IAOk 1 273) 9 9) 0 = false
+  /\ validate_chain [asc0; Ex.ca] = true.
+Proof. vm_compute. split; reflexivity. Qed.
